@@ -129,15 +129,15 @@ Section VerifyEq.
 End VerifyEq.
 
 (* C06_sound with equality of links instead of equality of binaries *)
-Theorem sound_eq (hasher_ok : N -> bool) (hash : N -> bytes -> bytes) (codecs : N -> option codec) :
+Theorem sound_eq (hasher_ok : N -> bool) (hash : N -> bytes -> bytes) (decoders : N -> option codec) :
   (forall mht bs, u64 (lenN (hash mht bs))) ->
-  registry_consumes_all codecs ->
+  registry_consumes_all decoders ->
   forall f ro l, wf_link l ->
-    lo_status (load_any hasher_ok hash codecs f false ro l) = SOk ->
+    lo_status (load_any hasher_ok hash decoders f false ro l) = SOk ->
     exists chunks, ro = RStream chunks TEof /\
       build_link (link_proto l) (hash (lp_mhtype (link_proto l)) (concat chunks)) = Some l.
 Proof.
   intros Hlen Hlaw f ro l W S.
-  destruct (sound hasher_ok hash codecs Hlaw f ro l S) as (chunks & -> & V & _).
+  destruct (sound hasher_ok hash decoders Hlaw f ro l S) as (chunks & -> & V & _).
   exists chunks. split; [reflexivity|]. now apply (verify_ok_eq hash Hlen).
 Qed.
